@@ -14,7 +14,7 @@ Terms are nested tuples `(op, ...)`:
   ("classref", fq) ("bound", obj, fi) ("lambda", fi) ("global", dotted) ("builtin", name) ("any", gens) ("disj", alternatives) ("unknown", why)
   ("attrgetter", dotted)   -- `operator.attrgetter("a")`; `map` / `filter` / a call apply it like a lambda
 
-Library calls with an exact meaning are normalised: `[*xs]` is `list(xs)`, `chain.from_iterable(xss)` is the flattening generator
+Library calls with an exact meaning are normalised: `[*xs]` is `list(xs)`, `chain.from_iterable(xss)` / `chain(*xss)` / `sum(xss, [])` are the flattening generator / list
 (continuing the generators of xss when that is a comprehension), `map(f, <comprehension>)` / `filter(f, <comprehension>)` are the
 comprehension with f applied to / tested on its element, `islice(xs, n)` is ("call", "islice", (xs, n)) (c16_logic knows its length).
 
@@ -343,9 +343,7 @@ class SymExec:
         n_events = len(self.events)
         depth0 = self.binders
         loc = st.fork()
-        self.bind_target(s.target, ("bv", self.binders), loc)
-        self.binders += 1
-        gens: list = [[it, []]]
+        gens: list = self._open_generator(it, s.target, loc)
         actions: list = []
         raises: list = []
         temps: set = {n.id for n in ast.walk(s.target) if isinstance(n, ast.Name)}
@@ -408,13 +406,12 @@ class SymExec:
                 if isinstance(s, ast.For) and not s.orelse:
                     it = self.ev(s.iter, loc, fr)
                     saved = dict(loc.env)
-                    self.bind_target(s.target, ("bv", self.binders), loc)
+                    opened = self._open_generator(it, s.target, loc)
                     temps |= {n.id for n in ast.walk(s.target) if isinstance(n, ast.Name)}
-                    self.binders += 1
-                    gens.append([it, []])
+                    gens.extend(opened)
                     ok = self._collect(s.body, loc, outer, fr, gens, actions, raises, temps, n_ifs)
-                    gens.pop()
-                    self.binders -= 1
+                    del gens[-len(opened):]
+                    self.binders -= len(opened)
                     if not ok:
                         return False
                     continue
@@ -667,15 +664,26 @@ class SymExec:
                     return v
         return ("attr", obj, e.attr)
 
+    def _open_generator(self, it: Term, target: ast.expr, loc: State) -> list:
+        """Binds the target of `for <target> in <it>` and returns the generators ([iterable, conditions]) it stands for: one that
+        binds a fresh variable - or, when `it` is itself a (lazy or list) comprehension built at this binder depth, the generators of
+        that comprehension, with the target bound to what it yields (`[f(x) for x in (g(y) for y in ys)]` is `[f(g(y)) for y in ys]`)."""
+        if it[0] == "comp" and it[1] in ("gen", "list") and it[4] == self.binders and it[3]:
+            self.bind_target(target, it[2], loc)
+            self.binders += len(it[3])
+            return [[g[0], list(g[1])] for g in it[3]]
+        self.bind_target(target, ("bv", self.binders), loc)
+        self.binders += 1
+        return [[it, []]]
+
     def ev_comp(self, e, st: State, fr: Frame) -> Term:
         loc = st.fork()
         depth0 = self.binders
         gens = []
         for g in e.generators:
-            it = self.ev(g.iter, loc, fr)
-            self.bind_target(g.target, ("bv", self.binders), loc)
-            self.binders += 1
-            gens.append((it, tuple(self.ev(c, loc, fr) for c in g.ifs)))
+            opened = self._open_generator(self.ev(g.iter, loc, fr), g.target, loc)
+            opened[-1][1] += [self.ev(c, loc, fr) for c in g.ifs]
+            gens += [(it, tuple(ifs)) for it, ifs in opened]
         if isinstance(e, ast.DictComp):
             elt = ("kv", self.ev(e.key, loc, fr), self.ev(e.value, loc, fr))
         else:
@@ -718,6 +726,8 @@ class SymExec:
         args = [self.ev(a, st, fr) for a in call.args if not isinstance(a, ast.Starred)]
         kws = {k.arg: self.ev(k.value, st, fr) for k in call.keywords if k.arg is not None}
         lib = fterm[1] if fterm is not None and fterm[0] == "global" else f"{recv[1]}.{f.attr}" if fterm is None and recv is not None and recv[0] == "global" else None
+        if lib == "itertools.chain" and len(call.args) == 1 and isinstance(call.args[0], ast.Starred) and not call.keywords:
+            return self.flatten(self.ev(call.args[0].value, st, fr))  # `chain(*xss)`
         if lib is not None and not starred:
             t = self.library(lib, args, kws)
             if t is not None:
@@ -796,13 +806,13 @@ class SymExec:
             return self.flatten(args[0])
         return None
 
-    def flatten(self, x: Term) -> Term:
+    def flatten(self, x: Term, kind: str = "gen") -> Term:
         """`(e for xs in x for e in xs)`; when x is itself a comprehension its generators are continued."""
         if x[0] == "comp" and x[1] != "dict" and x[4] >= self.binders:
             k = len(x[3])
-            return ("comp", "gen", ("bv", x[4] + k), x[3] + ((x[2], ()),), x[4])
+            return ("comp", kind, ("bv", x[4] + k), x[3] + ((x[2], ()),), x[4])
         b = self.binders
-        return ("comp", "gen", ("bv", b + 1), ((x, ()), (("bv", b), ())), b)
+        return ("comp", kind, ("bv", b + 1), ((x, ()), (("bv", b), ())), b)
 
     def _container_effects(self, recv: Term, attr: str, args, kws, st: State, fr: Frame, call: ast.Call) -> None:
         """dict.setdefault / dict.update / dict.__setitem__ on a state container are writes of entries."""
@@ -835,6 +845,8 @@ class SymExec:
             return ({"frozenset": "set"}.get(name, name), ())
         if name == "bool" and len(args) == 1:
             return ("call", "bool", args)
+        if name == "sum" and len(args) == 2 and args[1] == ("list", ()) and not kws:
+            return self.flatten(args[0], "list")  # `sum(xss, [])` concatenates the lists
         if name == "getattr" and len(args) in (2, 3) and not kws:
             alts = _const_alternatives(args[1])
             if alts is not None:
